@@ -190,10 +190,14 @@ STUB_E1 = ["ghedesigner.gfunction.calculate_g_function: pure memo (frozen g-valu
            "file system for reports: scratch directory through builtins.open/io.open/os.mkdir (no faults in E1)"]
 E1_RULE = ("seeded plans: one configuration (all six methods, four pipe arrangements, both flow types, five fluids, load family "
            "and magnitude steered towards the outcome classes) + a seeded operation history (build with permuted setters and "
-           "decoy values, find, redesign, abort-at-k-th-call then retry, unrelated design in between, other nominal height, "
-           "simulate HYBRID/HOURLY at in-/out-of-window heights, size, regenerate g-functions, report, clock jumps).  "
+           "decoy values, find, redesign, reconfigure a live manager to a near-identical variant and back, abort-at-k-th-call "
+           "then retry (g-function call, simulate entry, a tridiagonal solve inside the short-time-step computation), aborted "
+           "size, unrelated / near-identical / leap-year design in between, other nominal height, setter re-called with the same "
+           "values, simulate HYBRID/HOURLY at in-/out-of-window heights, size, regenerate g-functions, stand-alone field objects "
+           "with a live g-function, report (optionally with an I/O error on the first attempt, another manager's prepare in "
+           "between, a second write without prepare), comparison with a pristine interpreter, clock jumps).  "
            "Non-trivial = at least 3 operations; distinct = distinct SHA-256 of the event log "
-           "(op, argument digest, bit-exact outcome digest).")
+           "(op, argument digest, outcome digest at 8 significant digits).")
 
 
 def _e1_extra(c, counters, sets):
@@ -225,12 +229,13 @@ def spec_c13(tier):
     return {
         "level": "exploration",
         "parts": [_e1_part("C13", tier, 220, 4000)],
-        "coverage": _generic_coverage(E1_RULE + "  Oracle: after every find-like op the bit-exact fingerprint (field, height, all "
-                                      "temperatures, search log) equals fresh(cfg); after every simulate/size the result equals the "
-                                      "same call on a fresh GHE object for that field; untouched reports are byte-equal to a fresh "
-                                      "manager's (clock fields removed).", REAL_E1, STUB_E1, _e1_extra),
+        "coverage": _generic_coverage(E1_RULE + "  Oracle: after every find-like op the fingerprint (field, height, all "
+                                      "temperatures, search log; floats at 1e-9, everything else exact) equals fresh(cfg); after "
+                                      "every simulate/size the result equals the same call on a fresh GHE object for that field; "
+                                      "untouched reports equal a fresh manager's (clock fields removed).", REAL_E1, STUB_E1, _e1_extra),
         "assumptions": [
-            "bit equality is asserted between executions in one pinned environment (OPENBLAS/OMP threads = 1, PYTHONHASHSEED=0)",
+            "'identical' = structural equality with floats at rtol=atol=1e-9 (LAPACK-level noise below the repository makes bit "
+            "equality unattainable); one pinned environment (OPENBLAS threads = 1, OPENBLAS_CORETYPE=Nehalem, PYTHONHASHSEED=0)",
             "the fresh reference is computed in the same process (memoised per worker); process-global leaks that also affect "
             "the reference are covered only by the cross-process determinism self-test",
             "the fresh GHE reference is constructed at the same height as the object under test (its HybridLoad depends on it)",
